@@ -3,6 +3,9 @@ NOTES = ('Model-based verification with explicit TLA+ specifications (specs/), c
          'specification behaviours into the real objects (harness/, Binding A) and validating recorded executions against trace '
          'specifications (Binding B). See DESIGN.md.')
 ENGINES = [
+    {'name': 'reference-vectors', 'path': 'specs/Codec.tla, specs/TimeArith.tla, specs/Overlay.tla + harness/src/bin/{codecvec,codecfuzz,timevec,overlay}.rs',
+     'serves_properties': ['C04', 'C16', 'C18'],
+     'kind_free_text': 'TLC evaluates an independent TLA+ reference (codec, limb arithmetic, exact overlay clock) over enumerated families / bounded behaviours; every vector or edge is applied to the real code and compared'},
     {'name': 'instance-edges', 'path': 'specs/Instance.tla + specs/MC*.tla + harness/src/bin/replay.rs',
      'serves_properties': ['C03', 'C17', 'C05', 'C06', 'C07', 'C08', 'C09', 'C10', 'C11', 'C12', 'C14', 'C15'],
      'kind_free_text': 'TLC enumerates every edge of the bounded state graph of the instance/port specification; each edge is replayed on fresh real objects and the projection compared'},
@@ -115,5 +118,32 @@ CLAIMED['C17'] = {
              'TLC checks absence of deadlock, LockOK and AtomicSnapshot over all interleavings; negative controls (nested read, update split over two spans) must fail. A real '
              'multi-threaded run over std::sync::RwLock checks that parent / time-properties snapshots and emitted Announces never mix two updates.'),
     'note': 'RwLock assumed writer-preferring (Linux futex implementation); patterns are those reached by the randomised driver and the edge suites',
+}
+
+CLAIMED['C04'] = {
+    'engine': 'reference-vectors', 'level': 'exploration', 'design_ref': 'DESIGN.md section 4, C04',
+    'technique': 'independent codec written in TLA+ from Clause 13 and evaluated by TLC over enumerated buffer families; each vector through statime\'s parser/serialiser; three-way agreement with a second independent decoder; byte-level fuzz',
+    'text': ('Codec.tla defines which buffers are messages (header, body lengths, TLV tiling, messageLength vs buffer) and the canonical re-encoding (reserved positions cleared). TLC '
+             'checks its laws and enumerates about 20 000 (quick) buffers: every type x every value of each 8-bit header field, boundary values of wider fields, one-octet body fields, '
+             '17 TLV layouts, every length relation. statime must agree on accept/reject, re-encode to exactly the canonical octets with the declared length, decode again to an equal '
+             'message and be idempotent; 300 000 random/mutated buffers are checked against the harness decoder, incl. that octets after messageLength never matter.'),
+    'note': 'exhaustive over the enumerated lattice, sampled elsewhere; one recorded finding (reserved enumeration values not preserved), one defect repaired (management body offsets)',
+}
+CLAIMED['C16'] = {
+    'engine': 'reference-vectors', 'level': 'exploration', 'design_ref': 'DESIGN.md section 4, C16',
+    'technique': 'mixed-radix limb reference in TLA+ (no wide integers) evaluated by TLC on a boundary lattice with its algebraic laws as invariant; each vector applied to the real operators in debug and release profile; wire conversions observed through a real port',
+    'text': ('TimeArith.tla represents times and durations as limbs (2^24 s, s, ns, 2^-16 ns, 2^-32 ns) with schoolbook carries; TLC checks (t+d)-d = t, (t+d)-t = d, wire split + '
+             'sub-nanosecond correction = t to 2^-16 ns and the interval round trip on every lattice vector and prints the results; statime\'s Time/Duration must give bit-identical '
+             'results in both profiles, must not wrap below zero, Follow_Up frames emitted by a real port must carry the reference\'s wire split, exported asymmetry the reference\'s '
+             'interval; 200 000 random vectors and all log intervals 2^-64..2^63 s complete the run.'),
+    'note': 'lattice exhaustive, rest sampled; results outside the representable range are only required not to wrap',
+}
+CLAIMED['C18'] = {
+    'engine': 'reference-vectors', 'level': 'model_checking', 'design_ref': 'DESIGN.md section 4, C18',
+    'technique': 'exact integer TLA+ model of the overlay clock; TLC enumerates all operation sequences to a depth bound (and simulates to length 50); every edge replayed on the real OverlayClock; random sequences against the same exact model',
+    'text': ('Overlay.tla is the clock as an affine map in integer microseconds; Continuous, ExactStep, Rate, ReturnsNow are action properties of it. Every edge of the bounded graph '
+             '(sequences of set_frequency in {+-500, +-100, 0} ppm, step_clock in {+-10 s, +-1 ms, 0}, advances {0, 1, 100, 700} s) is executed on a real OverlayClock over a mock '
+             'underlying clock at three start points; reading, returned time and time_from_underlying are compared with the exact value after every operation.'),
+    'note': 'tolerance 2 ns + 2^-30 of the elapsed time (resolution of the implementation\'s fixed-point factor); the step_clock defect found is repaired by fix: 55c0e78',
 }
 NOT_CLAIMED = {}
